@@ -412,7 +412,10 @@ def _r4_refusals(model: Model, run: Run, folder: Folder) -> None:
     # collision guard needs the iBGP condition
     col = found.get('router-id-collision')
     if col is not None:
-        run.check('asn == neighbor.session.local_as' in col[1], val.qualname, 'router-id collision only inside one AS', val.loc(col[2]), 'RFC 6286: identical router-ids are refused only on iBGP')
+        run.check('== neighbor.session.local_as' in col[1], val.qualname, 'router-id collision only inside one AS', val.loc(col[2]), 'RFC 6286: identical router-ids are refused only on iBGP')
+        # "inside one AS" is decided with the peer's TRUE AS (self.peer_as, fixed up from the 4-byte capability), not with the
+        # 2-octet My-AS field, which holds AS_TRANS for every AS above 65535
+        run.check('self.peer_as == neighbor.session.local_as' in col[1] and 'received_open.asn == neighbor.session.local_as' not in col[1], val.qualname, 'the iBGP test of the router-id collision uses the negotiated peer AS', val.loc(col[2]), 'Open.asn is the 2-octet field: between two speakers of a 4-byte AS it is 23456 on both sides and never equals the local AS, so an OPEN carrying our own BGP Identifier is accepted on an internal session')
     # validate_open
     vo = model.func('exabgp.reactor.protocol.Protocol.validate_open')
     run.analysed(vo)
